@@ -187,7 +187,7 @@ fn annex_enc_session(w: &mut World) {
     w.exec(set("annex.d", &d));
     w.exec(json!({"op":"sm2.derive_pk","impl":"lib","d":"annex.d","pk":"annex.pk","comp":false}));
     w.exec(set("annex.msg", b"encryption standard"));
-    w.exec(enc_op("annex", "lib", "C1C3C2", false, "new", json!({"c":[k],"f":1})));
+    w.exec(enc_op("annex", "lib", "C1C3C2", false, "new", json!({"c":[k, k, k, k],"f":1})));
     w.exec(json!({"op":"assert.eq","a":"annex.ct","hex":"0404ebfc718e8d1798620432268e77feb6415e2ede0e073c0f4f640ecd2e149a73e858f9d81e5430a57b36daab8f950a3c64e6ee6a63094d99283aff767e124df059983c18f809e262923c53aec295d30383b54e39d609d160afcb1908d0bd876621886ca989ca9c7d58087307ca93092d651efa","property":"C05","oracle":"annex-example","entry":"sm2.encrypt","class":"annex-example","what":"GM/T 0003.5 Annex A ciphertext"}));
     w.exec(dec_op("annex", "C1C3C2", false));
 }
